@@ -124,9 +124,73 @@ class T4(P.Translator2):
         P.Translator2.__init__(self, rules)
         self._pending = []
         self._tmp = 0
+        self._defer_store = []          # (expression AST, {free name: its Lean name when the local was assigned})
 
     # ------------------------------------------------------------------------------------------------ expressions
+    # ---------------------------------------------------------------- deferred (symbolic) local temporaries
+    # `k = type(self.kernel)` ... `k(points)`: a refactoring may hoist a PART of an expression the vocabulary only has a
+    # word for as a whole into a local.  When the right-hand side of an assignment to a plain local has no translation
+    # of its own and is side-effect free (names, attributes, subscripts, arithmetic, `type(x)`, numpy calls), the local
+    # is bound to the EXPRESSION and substituted where it is used - sound as long as none of the names the expression
+    # mentions has been rebound or mutated in between (mutation = rebinding of the receiver in this translation), which
+    # is checked at every use.
+    _PURE_NODES = (ast.Name, ast.Attribute, ast.Subscript, ast.Slice, ast.Constant, ast.Tuple, ast.List, ast.UnaryOp,
+                   ast.BinOp, ast.Compare, ast.BoolOp, ast.Load, ast.operator, ast.unaryop, ast.cmpop, ast.boolop,
+                   ast.keyword, ast.expr_context)
+
+    _PURE_METHODS = ("diagonal", "copy", "transpose", "ravel", "reshape", "dot", "astype")      # of arrays: new values
+
+    @classmethod
+    def _deferrable(cls, node):
+        for n in ast.walk(node):
+            if isinstance(n, ast.Call):
+                f = n.func
+                root = f
+                while isinstance(root, ast.Attribute):
+                    root = root.value
+                ok = (isinstance(f, ast.Name) and f.id == "type" and len(n.args) == 1 and not n.keywords) or \
+                     (isinstance(f, ast.Attribute) and isinstance(root, ast.Name) and root.id == "np") or \
+                     (isinstance(f, ast.Attribute) and f.attr in cls._PURE_METHODS)
+                if not ok:
+                    return False
+            elif not isinstance(n, cls._PURE_NODES):
+                return False
+        return True
+
+    @staticmethod
+    def _has_deferred(scope):
+        return any(k.startswith("\0defer:") for k in scope)
+
+    def _subst(self, node, scope):
+        """`node` with every deferred local replaced by the expression it stands for"""
+        if not self._has_deferred(scope):
+            return node
+        tr = self
+
+        class Sub(ast.NodeTransformer):
+            def visit_Name(self, n):
+                key = "\0defer:" + n.id
+                if isinstance(n.ctx, ast.Load) and key in scope:
+                    expr_, snap = tr._defer_store[int(scope[key][2:])]
+                    for nm, was in snap.items():
+                        if scope.get(nm) != was:
+                            raise Untranslatable("local `%s` = `%s` is used after `%s` changed" % (
+                                n.id, ast.unparse(expr_), nm))
+                    import copy
+                    return copy.deepcopy(expr_)
+                return n
+        import copy
+        return Sub().visit(copy.deepcopy(node))
+
+    def bind_target(self, target, value, scope):
+        lines, sc = P.Translator2.bind_target(self, target, value, scope)
+        for n in ast.walk(target):
+            if isinstance(n, ast.Name):
+                sc.pop("\0defer:" + n.id, None)
+        return lines, sc
+
     def expr(self, node, scope):
+        node = self._subst(node, scope)
         for i, (pat, tmpl, flag) in enumerate(self.r.expr):
             env = {}
             if P.match(pat, node, env):
@@ -186,6 +250,27 @@ class T4(P.Translator2):
         st, rest = stmts[0], stmts[1:]
         if isinstance(st, (ast.Import, ast.ImportFrom)):
             return self.block(rest, scope, ind, ctx)
+        if self._has_deferred(scope) and not isinstance(st, (ast.If, ast.For, ast.While)):
+            st = self._subst(st, scope)
+            stmts = [st] + list(rest)
+        if (isinstance(st, ast.Assign) and len(st.targets) == 1 and isinstance(st.targets[0], ast.Name)
+                and self._deferrable(st.value)):
+            mark, tmp0 = len(self._pending[-1]), self._tmp
+            try:
+                self.expr(st.value, scope)
+                known = True
+            except Untranslatable:
+                known = False
+            del self._pending[-1][mark:]
+            self._tmp = tmp0
+            if not known:
+                name = st.targets[0].id
+                snap = {n.id: scope.get(n.id) for n in ast.walk(st.value) if isinstance(n, ast.Name) and n.id in scope}
+                sc = dict(scope)
+                sc.pop(name, None)
+                self._defer_store.append((st.value, snap))
+                sc["\0defer:" + name] = "\0D%d" % (len(self._defer_store) - 1)
+                return self.block(rest, sc, ind, ctx)
         if isinstance(st, ast.Return) and st.value is None and ctx.brk is None:
             return ctx.end(scope, ind)          # bare `return` = falling off the end
         if isinstance(st, ast.If):
@@ -745,6 +830,8 @@ def warp_items():
     def happly():
         r = Rules4(expr=[("np.hstack([$x, np.ones([$x.shape[0], 1])])", "(hom {x})"),
                          ("$a.dot($s.h_matrix.T)", "(Mat.mulVec ({s}).h {a})"),
+                         ("np.dot($a, $s.h_matrix.T)", "(Mat.mulVec ({s}).h {a})"),
+                         ("$a @ $s.h_matrix.T", "(Mat.mulVec ({s}).h {a})"),
                          ("($y / $y[:, -1][:, None])[:, :-1]", "dehom {y}", "bind")],
                    ret="some ({e})", raise_="none")
         from menpo.transform.homogeneous.base import Homogeneous
@@ -756,7 +843,8 @@ def warp_items():
     def tcoords1():
         r = Rules4(expr=[("np.array([[$a, $b, $c], [$e, $f, $g], [$h, $i, $j]])", "(m3 {a} {b} {c} {e} {f} {g} {h} {i} {j})"),
                          ("Homogeneous($m)", "ctor_Homogeneous_default (α := Unit) {m}", "bind"),
-                         ("Scale(np.array($x) - 1)", "(scaleFactory (shapeMinusOne {x}) : HT 2 Unit)"),
+                         ("np.array($x)", "(shapeVec {x})"), ("$v - 1", "(vsubOne {v})"),
+                         ("Scale($v)", "(scaleFactory {v} : HT 2 Unit)"),
                          ("$a.compose_before($b)", "(HT.composeBeforeH {a} {b})")],
                    ret="some ({e})", raise_="none")
         return T4(r).function(tc.tcoords_to_image_coords, {"image_shape": "imageshape"}, ind=1)
